@@ -1,5 +1,6 @@
 import Mathlib.Algebra.Order.Field.Rat
 import PyPhysim.Proofs.C12Optimal
+import PyPhysim.Proofs.C12Exact
 
 /-!
 # C12 — water-filling returns the capacity-optimal power allocation
@@ -295,6 +296,184 @@ theorem wf_equal_gains (n : Nat) (x : α) (asc : List (Chan α)) (P N Es : α) (
   refine ⟨e1.symm, ?_⟩
   rw [← e2, List.map_replicate, add_sub_cancel_right,
     max_eq_right (div_nonneg hP.le (Nat.cast_nonneg n))]
+
+/-! ### robustness facts (round 4: R15 distinct values that are merely close, R16 argument
+identity and buffer reuse)
+
+R15.  The code has no lookup, cache or "unchanged" test; the places where a value decides
+something are the loop test `sum(Ps) > dPt` and the sort.  The theorems say that the result
+is a function of the EXACT value of every input that can matter: two total powers, two noise
+variances, two symbol energies, two gains of a channel in use are never identified, however
+close they are (`α` is any linear ordered field: there is no tolerance in the model). -/
+
+/-- R15, total power: `P < P'` (no matter how close) ⇒ strictly higher water level and a
+    different allocation. -/
+theorem wf_exact_in_power (g : List α) (asc asc' : List (Chan α)) (P P' N Es : α)
+    (p p' : List α) (mu mu' : α)
+    (hc : SortContract g asc) (hc' : SortContract g asc') (hne : g ≠ []) (hg : ∀ x ∈ g, 0 < x)
+    (hP : 0 < P) (hN : 0 < N) (hEs : 0 < Es) (hPP : P < P')
+    (hres : doWFWith asc g.length P N Es = .ok (p, mu))
+    (hres' : doWFWith asc' g.length P' N Es = .ok (p', mu')) :
+    mu < mu' ∧ p ≠ p' := by
+  obtain ⟨q, nu, h, hw, _⟩ := doWFWith_isWaterFilling g asc P N Es hc hne hg hP.le hN hEs
+  rw [hres] at h; cases h
+  obtain ⟨q', nu', h', hw', _⟩ := doWFWith_isWaterFilling g asc' P' N Es hc' hne hg
+    (hP.trans hPP).le hN hEs
+  rw [hres'] at h'; cases h'
+  refine ⟨hw.level_strictMono hw' hPP, ?_⟩
+  intro e
+  have := hw.sum
+  rw [e, hw'.sum] at this
+  exact absurd this hPP.ne'
+
+/-- R15, noise variance: two different noise variances (4e-12 and 4e-13, say) never give the
+    same result. -/
+theorem wf_exact_in_noise (g : List α) (asc asc' : List (Chan α)) (P N N' Es : α)
+    (p p' : List α) (mu mu' : α)
+    (hc : SortContract g asc) (hc' : SortContract g asc') (hne : g ≠ []) (hg : ∀ x ∈ g, 0 < x)
+    (hP : 0 < P) (hN : 0 < N) (hN' : 0 < N') (hEs : 0 < Es) (hNN : N ≠ N')
+    (hres : doWFWith asc g.length P N Es = .ok (p, mu))
+    (hres' : doWFWith asc' g.length P N' Es = .ok (p', mu')) :
+    (p, mu) ≠ (p', mu') := by
+  obtain ⟨q, nu, h, hw, _⟩ := doWFWith_isWaterFilling g asc P N Es hc hne hg hP.le hN hEs
+  rw [hres] at h; cases h
+  obtain ⟨q', nu', h', hw', _⟩ := doWFWith_isWaterFilling g asc' P N' Es hc' hne hg hP.le hN' hEs
+  rw [hres'] at h'; cases h'
+  intro e
+  cases e
+  exact hNN (hw.noise_eq hw' hP hg hEs)
+
+/-- R15, symbol energy: two different symbol energies never give the same result. -/
+theorem wf_exact_in_energy (g : List α) (asc asc' : List (Chan α)) (P N Es Es' : α)
+    (p p' : List α) (mu mu' : α)
+    (hc : SortContract g asc) (hc' : SortContract g asc') (hne : g ≠ []) (hg : ∀ x ∈ g, 0 < x)
+    (hP : 0 < P) (hN : 0 < N) (hEs : 0 < Es) (hEs' : 0 < Es') (hEE : Es ≠ Es')
+    (hres : doWFWith asc g.length P N Es = .ok (p, mu))
+    (hres' : doWFWith asc' g.length P N Es' = .ok (p', mu')) :
+    (p, mu) ≠ (p', mu') := by
+  obtain ⟨q, nu, h, hw, _⟩ := doWFWith_isWaterFilling g asc P N Es hc hne hg hP.le hN hEs
+  rw [hres] at h; cases h
+  obtain ⟨q', nu', h', hw', _⟩ := doWFWith_isWaterFilling g asc' P N Es' hc' hne hg hP.le hN hEs'
+  rw [hres'] at h'; cases h'
+  intro e
+  cases e
+  exact hEE (hw.energy_eq hw' hP hg hN hEs hEs')
+
+/-- R15, gains: two gain vectors that differ — by however little — on a channel that gets
+    power never give the same result (the gain of a switched-off channel may change without
+    effect: it is legitimately invisible, `wf_switched_off_iff`). -/
+theorem wf_exact_in_used_gain (g g' : List α) (asc asc' : List (Chan α)) (P N Es : α)
+    (p p' : List α) (mu mu' : α)
+    (hc : SortContract g asc) (hc' : SortContract g' asc')
+    (hne : g ≠ []) (hne' : g' ≠ []) (hg : ∀ x ∈ g, 0 < x) (hg' : ∀ x ∈ g', 0 < x)
+    (hP : 0 < P) (hN : 0 < N) (hEs : 0 < Es)
+    (hres : doWFWith asc g.length P N Es = .ok (p, mu))
+    (hres' : doWFWith asc' g'.length P N Es = .ok (p', mu'))
+    (j : Nat) (hj : j < g.length) (hj' : j < g'.length) (hp : j < p.length)
+    (hused : 0 < p[j]) (hdiff : g[j] ≠ g'[j]) :
+    (p, mu) ≠ (p', mu') := by
+  obtain ⟨q, nu, h, hw, _⟩ := doWFWith_isWaterFilling g asc P N Es hc hne hg hP.le hN hEs
+  rw [hres] at h; cases h
+  obtain ⟨q', nu', h', hw', _⟩ := doWFWith_isWaterFilling g' asc' P N Es hc' hne' hg' hP.le hN hEs
+  rw [hres'] at h'; cases h'
+  intro e
+  cases e
+  exact hdiff (hw.used_gain_eq hw' hg hg' hN hEs j hj hj' hp hused)
+
+/-- R15, all scalar arguments at once, for the function the driver runs: `doWF` returns the
+    same value for `(P, N, Es)` and `(P', N', Es')` only if `P = P'` and `N/Es = N'/Es'`
+    (the ratio is the only way the two enter: `wf_scale_gain_energy`, `wf_scale_gain_noise`). -/
+theorem wf_close_values_not_identified (g : List α) (P P' N N' Es Es' : α)
+    (hne : g ≠ []) (hg : ∀ x ∈ g, 0 < x) (hP : 0 < P) (hP' : 0 < P')
+    (hN : 0 < N) (hN' : 0 < N') (hEs : 0 < Es) (hEs' : 0 < Es')
+    (heq : doWF g P N Es = doWF g P' N' Es') : P = P' ∧ N / Es = N' / Es' := by
+  obtain ⟨p, mu, h, _, hs, _, hw⟩ := doWF_facts g P N Es hne hg hP.le hN hEs
+  obtain ⟨p', mu', h', _, hs', _, hw'⟩ := doWF_facts g P' N' Es' hne hg hP'.le hN' hEs'
+  rw [heq, h'] at h
+  cases h
+  exact ⟨hs.symm.trans hs', hw.ratio_eq hw' hP hg hEs hEs'⟩
+
+/-- non-vacuity of the R15 theorems at close values: noise 4e-12 vs 4e-13 (both "equal to 0"
+    for `np.isclose`) and powers 1 vs 1 + 1e-13 give different model results (the sort result
+    `[(1/2, 1), (1, 0)]` is the one of `g = [1, 1/2]`) -/
+example :
+    (doWFWith [((1/2 : Rat), 1), (1, 0)] 2 (1/1000000000000) (4/1000000000000) 1).toOption
+      ≠ (doWFWith [((1/2 : Rat), 1), (1, 0)] 2 (1/1000000000000) (4/10000000000000) 1).toOption ∧
+    (doWFWith [((1/2 : Rat), 1), (1, 0)] 2 1 1 1).toOption
+      ≠ (doWFWith [((1/2 : Rat), 1), (1, 0)] 2 (1 + 1/10000000000000) 1 1).toOption := by
+  decide +kernel
+
+/-! R16.  `doWF` is a pure function of the values it is handed: the model of a caller that
+keeps one array and refills it in place (`runOps`, `Model/C12.lean`) returns, for every
+call, `doWF` of the contents at call time; nothing a later refill or call does reaches an
+earlier result. -/
+
+omit [Field α] [LinearOrder α] [IsStrictOrderedRing α] in
+/-- R16: the k-th result of a history on ONE reused buffer is `doWF` of the k-th argument
+    values (= the contents the buffer had when the call was made) — a fresh call on a copy. -/
+theorem wf_history_results [Add α] [Sub α] [Mul α] [Div α] [Zero α] [NatCast α] [LT α]
+    [DecidableLT α] (buf : List α) (ops : List (Op α)) :
+    runOps buf ops = (callArgs buf ops).map (fun a => doWF a.1 a.2.1 a.2.2.1 a.2.2.2) := by
+  induction ops generalizing buf with
+  | nil => rfl
+  | cons o ops ih =>
+    cases o with
+    | refill new => exact ih new
+    | call P N Es => simp only [runOps, callArgs, List.map_cons, ih buf]
+
+omit [Field α] [LinearOrder α] [IsStrictOrderedRing α] in
+/-- R16: whatever the caller does later (refills, further calls) leaves the results of the
+    earlier calls as they were, and the later calls see exactly the buffer the earlier
+    operations left behind. -/
+theorem wf_history_append [Add α] [Sub α] [Mul α] [Div α] [Zero α] [NatCast α] [LT α]
+    [DecidableLT α] (buf : List α) (ops more : List (Op α)) :
+    runOps buf (ops ++ more) = runOps buf ops ++ runOps (bufAfter buf ops) more := by
+  induction ops generalizing buf with
+  | nil => rfl
+  | cons o ops ih =>
+    cases o with
+    | refill new => exact ih new
+    | call P N Es => simp only [List.cons_append, runOps, bufAfter, ih buf]
+
+omit [Field α] [LinearOrder α] [IsStrictOrderedRing α] in
+/-- R16: refilling the buffer with the contents it already has (an equal-content array, the
+    same or another object) changes nothing; and one value handed over in several roles
+    (`doWF(g, z, z, z)` with ONE 0-d array `z`) is the call with that value in each role. -/
+theorem wf_equal_contents_same_result [Add α] [Sub α] [Mul α] [Div α] [Zero α] [NatCast α]
+    [LT α] [DecidableLT α] (buf : List α) (ops : List (Op α)) (z : α) :
+    runOps buf (.refill buf :: ops) = runOps buf ops ∧
+    runOps buf [.call z z z] = [doWF buf z z z] ∧
+    doWFCall buf z (some z) (some z) = doWF buf z z z :=
+  ⟨rfl, rfl, rfl⟩
+
+/-- The driver's `runOpsRat` is the `ℚ` instance of `runOps`. -/
+theorem wf_driver_history_instance (buf : List ℚ) (ops : List (Op ℚ)) :
+    runOpsRat buf ops = runOps buf ops := rfl
+
+/-- non-vacuity: a history A, B (a permutation of A: same sum, same first element), A on one
+    buffer — the second call sees the permuted contents, the third the restored ones
+    (`argsortAsc` is a well-founded recursion the kernel does not unfold, so the three values
+    are obtained through `wf_sort_irrelevant` from explicit sort results) -/
+example :
+    (runOpsRat [] [.refill [1, 1/2, 1/10], .call 1 (1/2) 2, .refill [1, 1/10, 1/2],
+                   .call 1 (1/2) 2, .refill [1, 1/2, 1/10], .call 1 (1/2) 2]).map Except.toOption
+      = [some ([5/8, 3/8, 0], 7/8), some ([5/8, 0, 3/8], 7/8), some ([5/8, 3/8, 0], 7/8)] := by
+  have key : ∀ (g : List ℚ) (asc : List (Chan ℚ)), SortContract g asc → g ≠ [] →
+      (∀ x ∈ g, 0 < x) → doWF g 1 (1/2) 2 = doWFWith asc g.length 1 (1/2) 2 := by
+    intro g asc hc hne hg
+    exact wf_sort_irrelevant g (argsortAsc g) asc 1 (1/2) 2 (argsortAsc_contract g) hc hne hg
+      one_pos (by norm_num) (by norm_num)
+  have hA : doWF ([1, 1/2, 1/10] : List ℚ) 1 (1/2) 2
+      = doWFWith [((1/10 : ℚ), 2), (1/2, 1), (1, 0)] 3 1 (1/2) 2 :=
+    key _ _ ⟨by decide +kernel, by simp; norm_num⟩ (by simp) (by simp)
+  have hB : doWF ([1, 1/10, 1/2] : List ℚ) 1 (1/2) 2
+      = doWFWith [((1/10 : ℚ), 1), (1/2, 2), (1, 0)] 3 1 (1/2) 2 :=
+    key _ _ ⟨by decide +kernel, by simp; norm_num⟩ (by simp) (by simp)
+  have vA : (doWFWith [((1/10 : ℚ), 2), (1/2, 1), (1, 0)] 3 1 (1/2) 2).toOption
+      = some ([5/8, 3/8, 0], 7/8) := by decide +kernel
+  have vB : (doWFWith [((1/10 : ℚ), 1), (1/2, 2), (1, 0)] 3 1 (1/2) 2).toOption
+      = some ([5/8, 0, 3/8], 7/8) := by decide +kernel
+  simp only [runOpsRat, runOps, List.map_cons, List.map_nil, hA, hB, vA, vB]
 
 /-- The model's own sort (the one the compiled driver runs) is an admissible `argsort`
     result, so every theorem above applies to `doWF g P N Es`. -/
